@@ -23,6 +23,10 @@ def queries(tier):
                     timeout=300, params={"kernel": "dialer_connect_cb", "result": "any nng_err", "owner": "user aio"}))
     qs.append(Query("listener-accept-any-result", "c14/listener_accept.c", tus=TUS, env=ENV, defs={}, unwind=10, unwind_rules=KIT_RULES, timeout=300,
                     params={"kernel": "listener_accept_cb", "result": "any nng_err"}))
+    PENV = ["env_alloc.c", "env_misc.c", "env_sync.c", "env_aio.c", "env_idmap.c", "env_libc.c"]
+    for extra in (0, 1, 2):
+        qs.append(Query("pipe-reap-order-holders%d" % extra, "c14/pipe_reap.c", tus=TUS, env=PENV, defs={"EXTRA": extra}, unwind=30, timeout=300, group="c14/pipe_reap.c",
+                        params={"kernel": "nni_pipe_close / pipe_reap / nni_pipe_find / rele / pipe_destroy", "other_reference_holders": extra, "looked_up_id": "any 32-bit value"}))
     return qs
 
 MANIFEST = {
